@@ -597,23 +597,27 @@ pub fn gen_scenarios(seed: u64, tier: &str) -> Vec<Scenario> {
     let n = if tier == "thorough" { 1500 } else { 120 };
     let pool: Vec<Vec<u8>> = vec![b"".to_vec(), b"A".to_vec(), b"BB".to_vec(), b"hello world".to_vec(), vec![0x58; 300], (0..=255u8).collect(), vec![0x59; 70000]];
     let pool: Vec<Vec<u8>> = pool.into_iter().collect();
-    let paths = ["a", "b", "d/x", "d/y"];
+    let base_paths = ["a", "b", "d/x", "d/y"];
     let mut out = vec![];
     for id in 0..n {
+        // one scenario in four lives on four paths drawn from the pool of hostile names (util::hostile_paths)
+        let hp = if id % 4 == 3 { hostile_paths(&mut r, 4) } else { vec![] };
+        let hpr: Vec<&str> = hp.iter().map(|x| x.as_str()).collect();
+        let paths: &[&str] = if hpr.len() == 4 { &hpr } else { &base_paths };
         let nproc = if r.chance(1, 4) { 3 } else { 2 };
         let mut init = vec![];
-        for p in &paths {
+        for p in paths {
             if r.chance(1, 2) {
                 init.push((p.to_string(), content(&mut r, &pool[..6])));
             }
         }
-        let shared = *r.pick(&paths);
+        let shared = *r.pick(paths);
         let mut progs = vec![];
         for _ in 0..nproc {
             let k = 1 + r.below(2) as usize;
             let mut pr = vec![];
             for _ in 0..k {
-                let path = if r.chance(2, 3) { shared.to_string() } else { r.pick(&paths).to_string() };
+                let path = if r.chance(2, 3) { shared.to_string() } else { r.pick(paths).to_string() };
                 let cur = init.iter().find(|(p, _)| *p == path).map(|(_, c)| c.clone());
                 let exp = match r.below(4) {
                     0 => None,
